@@ -151,9 +151,17 @@ TState ==
 \* on an otherwise idle scheduler with N >= c workers; p is the largest number of them that were
 \* ever in flight together (each waits for the others, up to a timeout)
 TCapacity == /\ Is("capacity")
-             /\ Record(IF E.p >= E.c THEN {}
-                       ELSE {V("C03", "runnable jobs did not run concurrently although workers should be free")})
+             /\ Record((IF E.p >= E.c THEN {}
+                        ELSE {V("C03", "runnable jobs did not run concurrently although workers should be free")})
+                       \cup (IF E.p <= E.c THEN {}
+                             ELSE {V("C03", "more job bodies in flight than the concurrency limit")}))
              /\ UNCHANGED <<jvars, run, gs, nexit, nruns>>
+\* C09, promptness: the context was cancelled while the body of job E.job was held by the driver; p = 1
+\* iff Wait returned while that body was still held (the driver waits 1.5 s before giving up)
+TPrompt == /\ Is("prompt")
+           /\ Record(IF E.p = 1 THEN {}
+                     ELSE {V("C09", "Wait did not return after the context was done while a job was still running")})
+           /\ UNCHANGED <<jvars, run, gs, nexit, nruns>>
 THang == /\ Is("hang") /\ Record({V("C05", "caller stuck: " \o E.note)})
          /\ UNCHANGED <<jvars, run, gs, nexit, nruns>>
 TLeak == /\ Is("leak")
@@ -175,7 +183,7 @@ TDone == /\ l = Len(Trace) + 1 /\ l' = l + 1
          /\ UNCHANGED <<jvars, run, viol, gs, nexit, nruns>>
 
 TNext == TReset \/ TSubmit \/ TStart \/ TEnd \/ TCancelBegin \/ TCancel \/ TCancel2Begin \/ TCancel2 \/ TWaitCall \/ TWaitRet
-         \/ TState \/ TCapacity \/ THang \/ TLeak \/ TSlow \/ TQuiet \/ TInfo \/ TStale \/ TDone
+         \/ TState \/ TCapacity \/ TPrompt \/ THang \/ TLeak \/ TSlow \/ TQuiet \/ TInfo \/ TStale \/ TDone
 
 TSpec == TInit /\ [][TNext]_tvars
 
